@@ -36,9 +36,29 @@ def join (c : Char) : List (List Char) → List Char
   | [p] => p
   | p :: ps => p ++ c :: join c ps
 
-/-- ASCII characters `str.strip()` / `int()` treat as white space -/
+/-- characters `str.strip()` / `int()` treat as white space (`Py_UNICODE_ISSPACE`: the ASCII ones, then U+0085, U+00A0,
+U+1680, U+2000–U+200A, U+2028, U+2029, U+202F, U+205F, U+3000) -/
 def isPySpace (c : Char) : Bool :=
-  c = ' ' || (9 ≤ c.toNat && c.toNat ≤ 13) || (0x1c ≤ c.toNat && c.toNat ≤ 0x1f)
+  c = ' ' || (9 ≤ c.toNat && c.toNat ≤ 13) || (0x1c ≤ c.toNat && c.toNat ≤ 0x1f) ||
+  c.toNat = 0x85 || c.toNat = 0xa0 || c.toNat = 0x1680 || (0x2000 ≤ c.toNat && c.toNat ≤ 0x200a) ||
+  c.toNat = 0x2028 || c.toNat = 0x2029 || c.toNat = 0x202f || c.toNat = 0x205f || c.toNat = 0x3000
+
+/-- code points of the digit zero of every non-ASCII Unicode decimal-digit block (category `Nd`, Unicode 15.0 = the
+`unicodedata` of the pinned interpreter; each block is ten consecutive code points with values 0..9).  `int()` maps these
+to ASCII digits before parsing (`_PyUnicode_TransformDecimalAndSpaceToASCII`); op `bip32_path` / `subpaths` cases with one
+digit of every block compare this table with the interpreter on every run. -/
+def uniZeros : List Nat :=
+  [1632, 1776, 1984, 2406, 2534, 2662, 2790, 2918, 3046, 3174, 3302, 3430, 3558, 3664, 3792, 3872, 4160, 4240, 6112, 6160,
+   6470, 6608, 6784, 6800, 6992, 7088, 7232, 7248, 42528, 43216, 43264, 43472, 43504, 43600, 44016, 65296, 66720, 68912,
+   69734, 69872, 69942, 70096, 70384, 70736, 70864, 71248, 71360, 71472, 71904, 72016, 72784, 73040, 73120, 73552, 92768,
+   92864, 93008, 120782, 120792, 120802, 120812, 120822, 123200, 123632, 124144, 125264, 130032]
+
+/-- `Py_UNICODE_TODECIMAL` on a non-ASCII character -/
+def uniDigit (c : Char) : Option Nat :=
+  (uniZeros.find? fun z => z ≤ c.toNat && c.toNat < z + 10).map fun z => c.toNat - z
+
+/-- decimal value of a character `int()` accepts as a digit (ASCII or any Unicode `Nd`) -/
+def pyDigit (c : Char) : Option Nat := if c.isDigit then some (c.toNat - 48) else uniDigit c
 
 def strip (cs : List Char) : List Char :=
   ((cs.dropWhile isPySpace).reverse.dropWhile isPySpace).reverse
@@ -48,13 +68,16 @@ def digitsVal : List Char → Bool → Nat → Option Nat
   | [], prev, acc => if prev then some acc else none
   | c :: cs, prev, acc =>
     if c.isDigit then digitsVal cs true (acc * 10 + (c.toNat - 48))
-    else if c = '_' ∧ prev then
-      match cs with
-      | d :: _ => if d.isDigit then digitsVal cs false acc else none
-      | [] => none
-    else none
+    else match uniDigit c with
+    | some v => digitsVal cs true (acc * 10 + v)
+    | none =>
+      if c = '_' ∧ prev then
+        match cs with
+        | d :: _ => if (pyDigit d).isSome then digitsVal cs false acc else none
+        | [] => none
+      else none
 
-/-- `int(s)` (base 10) on ASCII text; `none` = `ValueError` -/
+/-- `int(s)` (base 10) on any `str` (ASCII or Unicode decimal digits and white space); `none` = `ValueError` -/
 def pyInt (s : List Char) : Option Int :=
   match strip s with
   | '-' :: r => (digitsVal r false 0).map fun n => -(n : Int)
